@@ -115,6 +115,23 @@ def hex_roundtrip_cases(rng, tier):
             cases.append("display %s %s" % (v, hx(b)))
             if val % 8 == 0:
                 cases.append("parts %s %s" % (v, hx(b)))
+        # patterned hashes: every byte equal; header uniform with a periodic body (period 2, 3, 4); header = first body byte etc.
+        # (a shortcut that tests "uniform" incompletely)
+        for A, B in ((0x00, 0xFF), (0x12, 0xED), (0xA7, 0x58), (0x00, 0x01), (0xFF, 0xFE), (0x5A, 0x5A)):
+            hdr = ck + 2
+            pats = [[A] * size, [A] * hdr + [A if j % 2 == 0 else B for j in range(size - hdr)],
+                    [A] * hdr + [B if j % 2 == 0 else A for j in range(size - hdr)],
+                    [A] * hdr + [(A, B, B)[j % 3] for j in range(size - hdr)], [A] * hdr + [(A, A, B, B)[j % 4] for j in range(size - hdr)],
+                    [B] * hdr + [A] * (size - hdr), [A if j % 2 == 0 else B for j in range(size)]]
+            for pb in pats:
+                b = bytes(pb)
+                s = ref_format(v, b, True)
+                cases.append("display %s %s" % (v, hx(b)))
+                cases.append("fmt %s %s with %s" % (v, hx(b), hx(rng.bytes(ls))))
+                cases.append("fmt %s %s empty %s" % (v, hx(b), hx(rng.bytes(ls - 2))))
+                cases.append("parse %s auto %s" % (v, hx(s.encode())))
+                cases.append("parts %s %s" % (v, hx(b)))
+                cases.append("fromstr %s %s" % (v, hx(s[2:].lower().encode())))
         # literals that are new in the current source (empty on the audited tree): every byte sequence at every offset of the
         # binary form, every small integer at every header byte; through every direction
         for b in dict_bins(rng, v):
@@ -255,6 +272,18 @@ def hex_malformed_cases(rng, tier):
         # the TEXT form (and other well-formed things of the wrong kind) handed to the binary parser
         for t in (good, good[2:], good.lower(), good[2:].lower(), b"T1" + b"7" * (ls - 2), b"0" * ls, b"0" * (ls - 2), good[:size], good[2:2 + size]):
             cases.append("frombytes %s %s" % (v, hx(t)))
+        # fromstr (UTF-8 only): a 2-, 3- or 4-byte character replacing as many ASCII bytes (same byte length) at every offset of the
+        # prefix / header and at a few body offsets
+        for ch in ("\u00e9", "\u20ac", "\U0001F600"):
+            enc = ch.encode("utf-8")
+            for off in list(range(0, 8)) + [ls // 2, ls - len(enc)]:
+                if off + len(enc) <= ls:
+                    d = good[:off] + enc + good[off + len(enc):]
+                    cases.append("fromstr %s %s" % (v, hx(d)))
+                    cases.append("parse %s auto %s" % (v, hx(d)))
+                if 2 <= off and off + len(enc) <= ls:
+                    d2 = good[2:off] + enc + good[off + len(enc):]
+                    cases.append("fromstr %s %s" % (v, hx(d2)))
         # fromstr (UTF-8 only): ASCII damage
         for _ in range(30 if tier == "quick" else 1000):
             d = bytearray(good)
@@ -294,6 +323,26 @@ def hex_buffer_cases(rng, tier):
                 cases.append("fmt %s %s empty %s" % (v, hx(b), hx(rng.bytes(L))))
             for L in range(0, size + 65):
                 cases.append("storebytes %s %s %s" % (v, hx(b), hx(rng.bytes(L))))
+        # special hash values (all-zero checksum as after clear_checksum, all-FF, zero length / Q ratios) into slightly larger buffers
+        ck = VARIANTS[v][0]
+        for special in range(6):
+            b = bytearray(plausible_bin(rng, v))
+            if special == 0:
+                b[:ck] = bytes(ck)
+            elif special == 1:
+                b[:ck] = b"\xff" * ck
+            elif special == 2:
+                b[ck] = 0
+            elif special == 3:
+                b[ck + 1] = 0
+            elif special == 4:
+                b = bytearray(size)
+            else:
+                b = bytearray(b"\xff" * size)
+            for extra in (0, 1, 2, 5):
+                cases.append("fmt %s %s with %s" % (v, hx(b), hx(rng.bytes(ls + extra))))
+                cases.append("fmt %s %s empty %s" % (v, hx(b), hx(rng.bytes(ls - 2 + extra))))
+                cases.append("storebytes %s %s %s" % (v, hx(b), hx(rng.bytes(size + extra))))
         # much larger buffers: around every power of two up to 64 KiB (a length that is reduced modulo something, a block-wise
         # encoder, an alignment-dependent path)
         b = plausible_bin(rng, v)
@@ -424,6 +473,16 @@ def gen_hist_cases(rng, tier):
             cases.append("hist %s %s" % (v, " ".join(ops)))
             # the same bytes in one update: must give the same observations
             cases.append("hist %s u %s l r f 30 f 2 f 0" % (v, hx(d)))
+        # Clone::clone_from in place (cf: top := copy of the generator below it; cn: top := a fresh generator), with used and
+        # young generators on either side, then continued
+        for _ in range(12 if tier == "quick" else 300):
+            a = gen_data(rng, rng.choice([0, 1, 3, 4, 5, 9, 64, 300]))
+            b = gen_data(rng, rng.choice([0, 1, 2, 4, 5, 6, 70, 300]))
+            c = gen_data(rng, rng.choice([1, 5, 60, 200]))
+            cases.append("hist %s u %s c p c uzero 0 w p u %s l r" % (v, hx(a), hx(c)))  # exercise the stack ops together
+            cases.append("hist %s u %s c cn u %s cf u %s l r f 30 w u %s l r f 30" % (v, hx(a), hx(b), hx(c), hx(c)))
+            cases.append("hist %s u %s c u %s w cf u %s l r f 30 f 2" % (v, hx(a), hx(b), hx(c)))
+            cases.append("hist %s u %s cn u %s l r f 30 fd" % (v, hx(a), hx(b + c)))
     return cases
 
 
